@@ -586,6 +586,17 @@ def agree(F, table, own, n_nodes):
             newn = ('obj', news[0])
         else:
             newn = [('obj', oid) for oid, nm in fr.names.items() if nm == 'new'][0]
+        if own:
+            # raw storage from the allocator: every link of the new node must have been written (by make_node or by insert)
+            # before the node is handed to the re-balancing -- an unwritten link holds whatever the block held before
+            for which in ('left', 'right', 'parent'):
+                try:
+                    kk = fr.key(newn, which, st)
+                except AnalysisBroken:
+                    kk = None
+                if kk is not None and kk not in st.symstore:
+                    p1.append(f'descent {d}: the {which} link of the freshly allocated node is never written: it holds whatever the storage held before '
+                              '(a stale pointer that a later rotation follows)')
         pos = where_linked(fr, st, newn)
         want = ('root', None) if n_nodes == 0 else (last[0], 'left' if last[1] == 'neg' else 'right')
         if pos != want:
